@@ -20,6 +20,19 @@ TEXT = {
     'C05': ('Bounded-progress restatement of the liveness clause: after the fault phase a fair regime runs until one stable leader, equal applied indexes, '
             'equal digests and fresh commands acknowledged; a progress measure that does not move over a window scaled by log length is "stuck" (violation), '
             'slow progress is inconclusive.', '6/C05'),
+    'C06': ('Journaled voters are killed between steps and at the k-th storage primitive inside a step (journal record/header store, .meta tmp/move, '
+            'dump tmp/rename, incoming snapshot file), restarted, and the next incarnation is compared with what the dead one had vouched for '
+            '(acknowledged entries, leader commit index), its applies and digests with the model, the stored commit index with the values ever set; '
+            'C01/C02/C04/C05 oracles run across incarnations.', '6/C06'),
+    'C07': ('Vote grants per (voter, term) and the highest acknowledged term per node are tracked across incarnations under election-heavy schedules '
+            'with kills right after a vote was granted; a grant for a second candidate, any message sent in an older term, or two leaders in a term '
+            'after a restart is a violation.', '6/C07'),
+    'C09': ('Every snapshot is checked when it is taken (state handed to the serializer = model state at that position, consumers included), every '
+            'dump file on disk is decoded after every step and at every restart (never torn, state = model at its index), every install/load is '
+            'followed by the C01 digest check; chunk sizes from 1 byte, transfers interrupted by drops and reconnects, kills during the dump write.', '6/C09'),
+    'C12': ('Commands that raise deterministically (user method and documented battery errors) are mixed into adversarial runs with restarts from '
+            'the journal; a re-executed position, a stalled applied index (C05 stuck oracle), diverging digests (C01 oracle, model swallows the same '
+            'exception) or a wrong/duplicate callback (C02 oracle) is a violation.', '6/C12'),
     'C08': ('Model equivalence after every operation plus exhaustive enumeration of kill points (before/after every storage primitive, torn record '
             'stores) of each enumerated operation, reopened and judged by the post-crash oracle; thorough adds real SIGKILL.', '6/C08'),
     'C15': ('Model-based testing of all public battery methods against the builtin containers, directly, across a serialize/deserialize round trip and '
@@ -36,6 +49,10 @@ TECH = {
     'C03': 'runtime monitor: per-term leader sets, vote accounting, leader completeness at election step',
     'C04': 'runtime monitor: majority count at commit step, index monotonicity, immutability, log matching tables',
     'C05': 'bounded-progress monitor in virtual time (stuck detection over a progress measure)',
+    'C06': 'runtime monitor over kill/restart executions: vouched-for entries vs reopened journal+dump, model replay per incarnation',
+    'C07': 'runtime monitor: vote and term accounting across process incarnations',
+    'C09': 'runtime monitor: snapshot/dump-file decoding vs reference model at the snapshot position, after every step',
+    'C12': 'runtime monitor: re-execution / stall / divergence detection with raising commands in the workload',
     'C08': 'reference-model monitor + crash-point enumeration by file snapshots at every storage primitive',
     'C15': 'model-based runtime comparison with builtin containers (direct, snapshot round trip, replicated)',
     'C18': 'runtime monitor: message/role bans for observers + voter-only majority count',
@@ -79,7 +96,7 @@ def main():
             'add_only': True,
         },
         'engines': [
-            {'name': 'E1 clustersim', 'path': 'rv/clustersim.py', 'serves_properties': ['C01', 'C02', 'C03', 'C04', 'C05', 'C18', 'C20'],
+            {'name': 'E1 clustersim', 'path': 'rv/clustersim.py', 'serves_properties': ['C01', 'C02', 'C03', 'C04', 'C05', 'C06', 'C07', 'C09', 'C12', 'C18', 'C20'],
              'kind_free_text': 'real SyncObj/journal/serializer per node on a simulated message-level transport under virtual time; monitors after every step'},
             {'name': 'E3 journalfuzz', 'path': 'rv/journalfuzz.py', 'serves_properties': ['C08'],
              'kind_free_text': 'FileJournal vs list model with kill-point enumeration by file snapshots; SIGKILL stress'},
